@@ -346,6 +346,8 @@ func execServe(in val.V) val.V {
 			var topics []string
 			if o.At(0).Len() > 0 {
 				topics = o.At(0).Strs()
+			} else if o.At(3).Truth() {
+				topics = []string{} // "no topics" as an empty, non-nil slice (strings.Fields(""), a filtered x[:0] ...)
 			}
 			return topics, o.At(1).Truth()
 		}
@@ -556,6 +558,8 @@ func genSession(c *Ctx) {
 		val.L(),
 		val.L(val.L(val.L(val.S("a"), val.S("b")), val.N(1), val.L())),
 		val.L(val.L(val.L(), val.N(1), val.L())),
+		val.L(val.L(val.L(), val.N(1), val.L(), val.N(1))),
+		val.L(val.L(val.L(), val.N(0), val.L(), val.N(1))),
 		val.L(val.L(val.L(val.S("")), val.N(1), val.L())),
 		val.L(val.L(val.L(), val.N(0), status(403))),
 		val.L(val.L(val.L(), val.N(0), val.L())),
